@@ -5,7 +5,7 @@ use core::mem::{size_of, MaybeUninit};
 use core::ptr::NonNull;
 use crate::AnyVec;
 use crate::any_value::{AnyValue, AnyValueMut, AnyValueRaw, AnyValueWrapper, AnyValueSizeless, AnyValueSizelessMut, AnyValueTypeless, AnyValueTypelessMut};
-use crate::mem::Stack;
+use crate::mem::{Stack, StackN};
 use crate::traits::None;
 use super::ghost::*;
 use super::types::*;
@@ -139,6 +139,56 @@ fn swap_h(ka: usize, kb: usize) {
     // out over every address-taken function (u64 has no destructor anyway)
     core::mem::forget(va);
     core::mem::forget(vb);
+}
+
+/// Views and handle reports on the REAL inline backends, instantiated with slack (SIZE is not N x size): the
+/// operation contracts run on the ghost backend, so anything a built-in backend answers by itself (a provided
+/// `Mem` method it overrides) is only seen here.  Real memory; every length 0..=capacity of the instance.
+fn inline_views_h<M: crate::mem::MemBuilder + Default, T: Copy + kani::Arbitrary + 'static, const CAP: usize>() {
+    let x: [T; CAP] = kani::any();
+    let len: usize = kani::any();
+    kani::assume(len <= CAP);
+    let esz = size_of::<T>();
+    let mut v: AnyVec<dyn None, M> = AnyVec::new::<T>();
+    { let mut t = v.downcast_mut::<T>().unwrap(); let mut i = 0; while i < CAP { if i < len { t.push(x[i]); } i += 1; } }
+    kani::assert(v.capacity() == CAP && v.len() == len, "inline backend: the stated capacity");
+    let b0 = v.as_bytes().as_ptr() as usize;
+    kani::assert(v.as_bytes().len() == len * esz, "as_bytes: exactly len x size bytes (inline backend)");
+    kani::assert(v.as_bytes_mut().len() == len * esz && v.as_bytes_mut().as_ptr() as usize == b0, "as_bytes_mut: exactly len x size bytes (inline backend)");
+    {
+        let s = v.spare_bytes_mut();
+        kani::assert(s.len() == (CAP - len) * esz && s.as_ptr() as usize == b0 + len * esz,
+            "spare_bytes_mut: exactly the (capacity - len) x size bytes that follow the elements (inline backend)");
+    }
+    {
+        let mut t = v.downcast_mut::<T>().unwrap();
+        kani::assert(t.as_ptr() as usize == b0 && t.as_slice().len() == len, "typed views alias the same elements (inline backend)");
+        let sp = t.spare_capacity_mut();
+        kani::assert(sp.len() == CAP - len && sp.as_ptr() as usize == b0 + len * esz, "spare_capacity_mut: the capacity - len slots after the elements (inline backend)");
+    }
+    let i: usize = kani::any();
+    kani::assume(i < len || len == 0);
+    if len > 0 {
+        {
+            let e = v.at(i);
+            kani::assert(e.size() == esz && e.as_bytes().len() == esz && e.as_bytes_ptr() as usize == b0 + i * esz,
+                "element reference: true size and exactly the element's bytes (inline backend)");
+        }
+        {
+            let mut e = v.at_mut(i);
+            kani::assert(e.size() == esz && e.as_bytes_mut().len() == esz, "mutable element reference: true size (inline backend)");
+        }
+        {
+            let h = v.pop().unwrap();
+            kani::assert(h.size() == esz && h.as_bytes().len() == esz && h.as_bytes_ptr() as usize == b0 + (len - 1) * esz,
+                "removal handle: true size and exactly the element's bytes (inline backend)");
+            core::mem::forget(h);
+        }
+    }
+    kani::cover!(len == CAP && CAP > 1, "COV full");
+    kani::cover!(len == 0, "COV empty");
+    kani::cover!(true, "REACHED");
+    core::mem::forget(v);
 }
 
 include!("k1_views.inst.rs");
